@@ -10,6 +10,9 @@ CONSTANTS
   EqualNames = FALSE
   SanitiseDots = TRUE
   Reserve = FALSE
+  AllowAbort = FALSE
+  ForeignRelease = FALSE
+  OrderedArrival = FALSE
 CONSTRAINT Inside
 CONSTRAINT RegularName
 CONSTRAINT FreshWhenChosen
